@@ -109,6 +109,8 @@ class WorldGen:
         self.dyn_lists = False
         # object ids per object type
         self.objects = objects or {"root": ts["query"], "a1": "A", "a2": "A", "b1": "B"}
+        if ts["types"].get("S", {}).get("simple") and "S" not in self.objects.values():
+            self.objects["s1"] = "S"
         if ts.get("mutation"):
             self.objects.setdefault("mroot", ts["mutation"])
 
@@ -174,11 +176,16 @@ class WorldGen:
         w = {}
         for i, t in sorted(self.objects.items()):
             vals = {}
+            # derive(SimpleObject) types ("simple"): generated resolvers cannot fail
+            saved = self.p_err
+            if self.ts["types"][t].get("simple"):
+                self.p_err = 0.0
             for f, d in sorted(self.ts["types"][t]["fields"].items()):
-                if f == "id":
+                if f in ("id", "sid"):
                     vals[f] = {"k": "str", "v": i}
                 else:
                     vals[f] = self.value(d["ty"])
+            self.p_err = saved
             w[i] = {"type": t, "vals": vals}
         return w
 
@@ -199,7 +206,8 @@ def resolved_positions(ts, doc, world):
                 t = world[oid]["type"]
                 if s["name"] not in ts["types"][t]["fields"]:
                     continue
-                out.append((oid, s["name"]))
+                if not ts["types"][t].get("simple"):
+                    out.append((oid, s["name"]))
                 for rid in refs(world[oid]["vals"].get(s["name"], {"k": "null"})):
                     walk(s["sels"], rid, depth + 1, seen)
             elif s["k"] == "inline":
@@ -433,5 +441,8 @@ def wrapping_docs():
         [f(1, "a"), f(2, "kids"), on(3, "A"), f(4, "colors"), f(4, "grid"), f(2, "ints"), f(2, "ints", "again")],
         [f(1, "entity"), f(2, "id"), on(2, "Node"), f(3, "peer"), on(4, "Entity"), f(5, "label"), on(2, "A"), f(3, "ints")],
         [f(1, "node"), on(2, "Entity"), on(3, "B"), f(4, "b"), on(3, "A"), f(4, "grid"), f(2, "__typename")],
+        # derive(SimpleObject) with a flattened part
+        [f(1, "simple"), f(2, "slabel"), f(2, "sid"), f(2, "snn"), f(2, "sints"), f(2, "sb"), f(2, "se"), f(2, "sf"), f(2, "sn"), f(2, "__typename")],
+        [f(1, "a"), f(2, "simple"), f(3, "sb", "x"), f(3, "sid"), on(3, "S"), f(4, "sints"), f(4, "slabel"), f(2, "simple", "again"), f(3, "snn"), f(2, "n")],
     ]
     return [tree_from_flat(d, "query") for d in docs]
